@@ -197,3 +197,6 @@ def run(chk, replay):
     # a strain in between changes the level count / field sets so that refusals and name clashes occur
     from harness import optrace
     optrace.phase(chk, ["combine", "combine", "combine", "strain"], "combine on large inputs", 60, 600, twod=False, nops=4)
+    # the command line layer (spec/Cli.tla): every subset of the tool's options typed to the real main(), API intercepted
+    from harness import cli
+    cli.phase(chk, "combine")
